@@ -272,6 +272,23 @@ def c01(run):
         gen_doc(run, [("1, 2, 3", 4, True, 0, False, ""), ("1, 2", 7, False, 0)])
 
 
+def has_failed_call(sc):
+    return any(str(c.get('res')).startswith('err') for e in sc for c in e.get('calls', []))
+
+
+def c03(run):
+    run.cov["rule"] = ("every call of every transaction (put, put_object, insert, insert_object, delete, increment, "
+                       "splice, splice_text; valid, boundary and invalid arguments; maps, lists, text; prior states with "
+                       "conflicts, counters, nested objects) is logged with the view read through the open transaction "
+                       "before and after it; Trace_Seq demands After = SeqSpec(Before, call), unchanged frame, errors "
+                       "exactly for invalid arguments, and committed view = last transaction view; non-trivial = scenario "
+                       "containing at least one rejected (invalid) call")
+    gen_doc(run, [("1, 2", 5, True, 0 if run.tier == "thorough" else 30)])
+    interp_trace(run, ["C03"], "seq", sizes(run, 200, 4000), has_failed_call, spec="Trace_Seq.tla")
+    interp_trace(run, ["C03"], "docinv", sizes(run, 100, 2000), has_failed_call, spec="Trace_Seq.tla")
+    interp_trace(run, ["C03"], "conflict", sizes(run, 100, 2000), has_conflict, spec="Trace_Seq.tla")
+
+
 def replay(run, path):
     """re-validate a recorded violating scenario"""
     from . import tlc_trace
@@ -289,4 +306,5 @@ REG = {
     "C10": ("model_checking", c10),
     "C02": ("model_checking", c02),
     "C01": ("model_checking", c01),
+    "C03": ("model_checking", c03),
 }
